@@ -20,7 +20,10 @@ What is modelled (read line by line from the sources):
   production: they differ for `NOT IN`/`NOT LIKE`/`NOT ILIKE`, whose first token is `NOT`).
   The reductions build the AST as the real reduce methods do: `reduce_MINUS_Expr` folds a
   minus into a numeric constant, `reduce_Expr_IndirectionEl` appends to an existing
-  `Indirection`, `ParenExpr` is dropped.
+  `Indirection`, `reduce_Expr_PathStep` appends a `Ptr` to an existing `Path` (`ensure_path`),
+  `ParenExpr` is dropped.
+* `visit_Path` writes the first step bare when it is an `ObjectRef`/`Set`/`Tuple`/`Parameter` and
+  as `(`expr`)` otherwise, then `.name` for every outbound `Ptr` step.
 Core Lean only.
 -/
 import EdbVerif.Gen.Prec
@@ -52,6 +55,9 @@ inductive Expr
   | set (es : List Expr)
   /-- `Indirection(arg, [Index i, …])` -/
   | index (arg : Expr) (idx : List Expr)
+  /-- `Path(steps=[base, Ptr s, Ptr ss…])`: one or more outbound pointer steps `.s` on a base
+      (`x.y` has base `.name "x"`, i.e. the `ObjectRef`; any other base is the expression itself) -/
+  | path (base : Expr) (s : String) (ss : List String)
   deriving Repr, Inhabited
 
 def isAtomTok : Tok → Bool
@@ -74,6 +80,18 @@ def UOp.lvl : UOp → Nat
   | .exists => existsLvl | .distinct => distinctLvl
 
 /-! ### printer -/
+
+/-- `visit_Path`, first step: an `ObjectRef` / `Set` / `Tuple` / `Parameter` base is written bare,
+    every other base expression is wrapped in parentheses -/
+def bareBase : Expr → Bool
+  | .name _ | .set _ | .tuple _ => true
+  | .atom (.param _) => true
+  | _ => false
+
+/-- `visit_Path`, further steps: `.` + `visit_Ptr` (outbound link pointer: just the name) -/
+def ppSteps : List String → List Tok
+  | [] => []
+  | s :: ss => .p .dot :: .id s :: ppSteps ss
 
 /-- `visit_Tuple`: a 1-tuple gets a trailing comma -/
 def tupleTail {α : Type} : List α → List Tok
@@ -101,6 +119,8 @@ mutual
     | .array es => .p .lbracket :: (ppList es ++ [.p .rbracket])
     | .set es => .p .lbrace :: (ppList es ++ [.p .rbrace])
     | .index arg idx => .p .lparen :: (pp arg ++ (.p .rparen :: ppIdx idx))
+    | .path b s ss =>
+        (if bareBase b then pp b else .p .lparen :: (pp b ++ [.p .rparen])) ++ ppSteps (s :: ss)
   /-- comma-separated -/
   def ppList : List Expr → List Tok
     | [] => []
@@ -122,6 +142,11 @@ def negate : Expr → Expr
 def mkIndex : Expr → Expr → Expr
   | .index a is, i => .index a (is ++ [i])
   | e, i => .index e [i]
+
+/-- `reduce_Expr_PathStep` (`ensure_path` + append): a step on a `Path` extends it -/
+def mkPath : Expr → String → Expr
+  | .path b s ss, y => .path b s (ss ++ [y])
+  | e, y => .path e y []
 
 /-- minimum level of the right operand of a binary production of level `l` -/
 def rhsMin (l : Nat) : Assoc → Nat
@@ -253,6 +278,10 @@ mutual
               match parseE f 0 r with
               | some (i, .p .rbracket :: r') => loop f m 0 (mkIndex lhs i) r'
               | _ => none
+        | .p .dot :: .id s :: r =>
+            -- `Expr PathStep` [P_DOT], `PathStep: DOT PathStepName`
+            if dotLvl < m then some (lhs, ts)
+            else loop f m 0 (mkPath lhs s) r
         | _ => some (lhs, ts)
 
   /-- comma-separated expressions up to `close` (trailing comma allowed) -/
